@@ -374,3 +374,68 @@ def run_factory(case):
     except Exception as ex:
         rec["out"] = type(ex).__name__
     return rec
+
+
+class _ScriptExhausted(Exception):
+    pass
+
+
+def run_bench(case):
+    """bench_time_consensus with the clock of its module replaced by a scripted one (durations in eighths of a second)"""
+    import corankco.algorithms.rank_aggregation_algorithm as ram
+    from corankco.algorithms.copeland.copeland import CopelandMethod
+    from corankco.algorithms.borda.borda import BordaCount
+    rec = dict(case)
+    rec.update(kind="bench", out="", calls=0, total8=0, exact=0, argsok=0)
+    base = [BordaCount, CopelandMethod][case["alg"] % 2]
+    seen = []
+
+    class Counting(base):
+        def compute_consensus_rankings(self, dataset, scoring_scheme, return_at_most_one_ranking=True, bench_mode=False):
+            seen.append((dataset, scoring_scheme, return_at_most_one_ranking, bench_mode))
+            return base.compute_consensus_rankings(self, dataset, scoring_scheme, return_at_most_one_ranking, bench_mode)
+    Counting.__name__ = base.__name__
+    state = {"c": 0, "now": 1000.0}
+    d = case["d"]
+
+    def clock():
+        c = state["c"]
+        state["c"] += 1
+        if c % 2 == 1:
+            k = c // 2
+            if k >= len(d):
+                raise _ScriptExhausted()
+            state["now"] += d[k] / 8.0
+        elif c // 2 >= len(d):
+            raise _ScriptExhausted()
+        return state["now"]
+    try:
+        ds = _impl["Dataset"].from_raw_list([[{1}, {2, 3}], [{3}, {1}, {2}]])
+        ss = _impl["Scheme"].get_unifying_scoring_scheme()
+        alg = Counting()
+    except Exception as ex:
+        rec["out"] = "setup-failed"
+        rec["err"] = repr(ex)[:200]
+        return rec
+    orig = ram.time
+    ram.time = clock
+    try:
+        flag = bool(case["flag"])
+        if case["default_lb"]:
+            avg = alg.bench_time_consensus(ds, ss, flag)
+        else:
+            avg = alg.bench_time_consensus(ds, ss, flag, case["lb"] / 8.0)
+        n = len(seen)
+        rec["calls"] = n
+        tot = avg * n * 8
+        rec["total8"] = int(round(tot))
+        rec["exact"] = 1 if abs(tot - round(tot)) < 1e-6 else 0
+        rec["argsok"] = 1 if all(a is ds and b is ss and c is flag and m is True for a, b, c, m in seen) else 0
+        rec["out"] = "ok"
+    except _ScriptExhausted:
+        rec["out"] = "exhausted"
+    except Exception as ex:
+        rec["out"] = type(ex).__name__
+    finally:
+        ram.time = orig
+    return rec
